@@ -182,6 +182,26 @@ try:
     lines += ["  | _, _ => none", "def encodeSrcOk : Bool := true", ""]
 except Exception as ex:
     problems.append("encode: " + str(ex)); lines += ["def encodeSrc (_t : InstType) (_opc : Nat) (_ops : List Operand) : Option Insn := none", "def encodeSrcOk : Bool := false", ""]
+# ---- the shape of `assemble_internal`, `operands_tuple` and `assemble`: recognised or not (what the model's assembleInternal / assemble mirror)
+flat = " ".join(txt.split())
+flat_nostr = re.sub(r'"(?:[^"\\]|\\.)*"', '""', flat)
+loop_ok = ('fn assemble_internal(parsed: &[Instruction]) -> Result<Vec<Insn>, String> { let instruction_map = make_instruction_map(); let mut result: Vec<Insn> = vec![]; '
+           'for instruction in parsed { let name = instruction.name.as_str(); match instruction_map.get(name) { Some(&(inst_type, opc)) => { '
+           'match encode(inst_type, opc, &instruction.operands) { Ok(insn) => result.push(insn), Err(msg) => return Err(format!("")), } '
+           'if let LoadImm = inst_type && let Integer(imm) = instruction.operands[1] { result.push(insn(0, 0, 0, 0, imm >> 32).unwrap()); } } '
+           'None => return Err(format!("")), } } Ok(result) }') in flat_nostr
+tuple_ok = ('fn operands_tuple(operands: &[Operand]) -> Result<(Operand, Operand, Operand), String> { match operands.len() { 0 => Ok((Nil, Nil, Nil)), 1 => Ok((operands[0], Nil, Nil)), '
+            '2 => Ok((operands[0], operands[1], Nil)), 3 => Ok((operands[0], operands[1], operands[2])), _ => Err("".to_string()), } }') in flat_nostr
+top_ok = ('pub fn assemble(src: &str) -> Result<Vec<u8>, String> { let parsed = (parse(src))?; let insns = (assemble_internal(&parsed))?; let mut result: Vec<u8> = vec![]; '
+          'for insn in insns { result.extend_from_slice(&insn.to_array()); } Ok(result) }') in flat_nostr
+enc_head_ok = bool(re.search(r"fn encode\( ?inst_type: InstructionType, opc: u8, operands: &\[Operand\],? ?\) -> Result<Insn, String> \{ let \(a, b, c\) = \(operands_tuple\(operands\)\)\?; match \(inst_type, a, b, c\) \{", flat_nostr))
+lines += ["/-- `assemble_internal` has the shape the model's `assembleInternal` mirrors: per instruction a map lookup (unknown name: error), `encode` (error: error), the result",
+          "    pushed, then for `LoadImm` with an integer second operand a second slot `insn(0, 0, 0, 0, imm >> 32).unwrap()`; `operands_tuple` pads up to three operands with `Nil`",
+          "    and refuses more; `encode` starts from that tuple; `assemble` is parse, assemble_internal, concatenation of `to_array()` -/",
+          "def assembleLoopShape : Bool := %s" % ("true" if loop_ok else "false"),
+          "def operandsTupleShape : Bool := %s" % ("true" if tuple_ok else "false"),
+          "def encodeHeadShape : Bool := %s" % ("true" if enc_head_ok else "false"),
+          "def assembleTopShape : Bool := %s" % ("true" if top_ok else "false"), ""]
 for p in problems: lines.append("/- not translated: %s -/" % p.replace("-/", "- /"))
 lines += ["end Rbpf.Generated", ""]
 new = "\n".join(lines)
